@@ -944,6 +944,7 @@ def install_datetime(w):
         a, b = args
         yield st, (False if ex.world.identical(a, b) is True else NotImplemented)
 
+    w.reg(object.__dict__["__init__"], lambda ex, st, args, kw, line: iter([(st, None)]), "object.__init__")
     w.reg(object.__dict__["__eq__"], obj_eq, "object.__eq__")
     w.reg(object.__dict__["__ne__"], obj_ne, "object.__ne__")
 
